@@ -172,7 +172,25 @@ def coq_term(case, out):
             idy(N.bf(p[1])), idy(N.bf(p[2])), idy(N.bf(p[3])), idy(N.bf(p[4])), acc))
     for run in out["runs"]:
         parts.append("mu_eval %s" % idy(N.bf(run["after_init"][1])))
+    for run in whole_runs(out):
+        p = run["after_init"]
+        ends = [e for e in run["events"] if e["e"] == "stepend"]
+        accs = "[" + "; ".join("(I.div iprec %s (I.fromZ iprec %d))" % (idy(N.bf(e["alpha"])), e["nalpha"]) for e in ends) + "]"
+        parts.append("da_run_eval %s %s %s %s %s %s %s %s %s %s" % (
+            idy(delta), idy(gamma), idy(kappa), C.natlit(run["d"]), C.natlit(p[0]),
+            idy(N.bf(p[1])), idy(N.bf(p[2])), idy(N.bf(p[3])), idy(N.bf(p[4])), accs))
     return " ++ ".join("(%s)" % q for q in parts)
+
+
+def whole_runs(out):
+    """runs short enough for Model.DualAvg.da_run as a whole (rounding differences accumulate over the run)"""
+    res = []
+    for run in out["runs"]:
+        ends = [e for e in run["events"] if e["e"] == "stepend"]
+        if 1 <= len(run["states"]) <= 24 and len(ends) == len(run["states"]) and \
+                all(math.isfinite(N.bf(x)) for st in [run["after_init"]] + run["states"] for x in st[1:5]):
+            res.append(run)
+    return res
 
 
 def ival(model, pos):
@@ -243,6 +261,26 @@ def compare(case, out, model):
         ulp = 2.0 ** -23 if case["f"] == "f32" else 2.0 ** -52
         if lo is not None and not (lo - Fraction(8 * ulp * (1 + abs(mu))) <= Fraction(mu) <= hi + Fraction(8 * ulp * (1 + abs(mu)))):
             return "mu after init_chain = %.10g, model ln(10 eps) in [%.10g, %.10g]" % (mu, float(lo), float(hi))
+    for run in whole_runs(out):
+        k = len(run["states"])
+        fin = run["states"][-1]
+        if model[pos] != fin[0]:
+            return "run of %d transitions from m=%d: counter %d, model da_run gives %d" % (k, run["after_init"][0], fin[0], model[pos])
+        pos += 1
+        worst = [Fraction(0)] * 3
+        for st in [run["after_init"]] + run["states"][:-1]:
+            for j, t in enumerate(tols(case, st)):
+                worst[j] = max(worst[j], t)
+        for name, j, tol in (("eps", 1, worst[0] * 8 * k), ("eps_bar", 2, worst[1] * 8 * k), ("h_bar", 3, worst[2] * 2 * k), ("mu", 4, Fraction(2.0 ** -20))):
+            lo, hi = ival(model, pos)
+            pos += 6
+            x = N.bf(fin[j])
+            okk = lo is None or ((lo - tol <= Fraction(x) <= hi + tol) if name in ("h_bar", "mu") else inside(x, lo, hi, tol))
+            if not okk:
+                return "end of a run of %d transitions (warm-up %d, from m=%d): %s = %.10g, Model.DualAvg.da_run encloses [%.10g, %.10g]" % (
+                    k, run["d"], run["after_init"][0], name, x, float(lo), float(hi))
+    if pos != len(model):
+        return "internal: %d model numbers, %d consumed" % (len(model), pos)
     return None
 
 
@@ -338,6 +376,7 @@ def extra(cases, outs, model):
     return {"warmup_transitions": warm, "post_warmup_transitions": post,
             "interval_checked": sum(len(sel(c, o)[1]) for c, o in zip(cases, outs) if c["op"] != "find_eps"),
             "multi_run_cases": sum(1 for c in cases if c["op"] != "find_eps" and len(c["runs"]) >= 2),
+            "whole_runs_checked": sum(len(whole_runs(o)) for c, o in zip(cases, outs) if c["op"] != "find_eps" and "runs" in o),
             "find_eps_cases": sum(1 for c in cases if c["op"] == "find_eps"),
             "find_eps_values": sorted({N.bf(o["eps"]) for c, o in zip(cases, outs) if c["op"] == "find_eps" and "eps" in o})}
 
